@@ -6,7 +6,7 @@ let side_of s = if s = "A" then SA else SB
 let sname = function SA -> "A" | SB -> "B"
 let ni n = string_of_int (int_of_n n)
 let show_ev = function
-  | EFrame (s, c, sid, sq, cl, len) -> Printf.sprintf "f%s%s:%s:%s:%s:%s" (sname s) (ni c) (ni sid) (ni sq) (ni cl) (ni len)
+  | EFrame (s, c, fr) -> Printf.sprintf "f%s%s:%s:%s:%s:%d" (sname s) (ni c) (ni fr.w_sid) (ni fr.w_seq) (ni fr.w_cl) (List.length fr.w_pay)
   | ERet (code, n, d) -> Printf.sprintf "r%s:%s:%s" (ni code) (ni n) (hex_of_bytes d)
   | EPend (PRead (s, sid, k), code, n, d) -> Printf.sprintf "pR%s:%s:%d:%s:%s:%s" (sname s) (ni sid) (int_of_nat k) (ni code) (ni n) (hex_of_bytes d)
   | EPend (PAccept s, code, n, d) -> Printf.sprintf "pA%s:0:0:%s:%s:%s" (sname s) (ni code) (ni n) (hex_of_bytes d)
